@@ -26,6 +26,14 @@ fn main() -> anyhow::Result<()> {
             let rows = core::par_cases(a.n, a.seed, |ctx, seed, i| gen_val::generate(ctx, seed, i, &kind, malformed));
             core::write_out(&a.out, &rows)
         }
+        Some("exhaustive") => {
+            // bwh exhaustive <kind> <maxlen> [--n limit]: every configuration x every line sequence up to maxlen
+            let kind = a.rest.first().cloned().unwrap_or_else(|| "keep-sorted".into());
+            let maxlen: usize = a.rest.get(1).and_then(|s| s.parse().ok()).unwrap_or(3);
+            let total = gen_val::exhaustive_count(&kind, maxlen);
+            let rows = core::par_cases(total, a.seed, |ctx, _seed, i| gen_val::generate_exhaustive(ctx, &kind, maxlen, i));
+            core::write_out(&a.out, &rows)
+        }
         Some("replay") => {
             let no_impl = a.rest.iter().any(|s| s == "--no-impl");
             let path = a.rest.iter().find(|s| !s.starts_with("--")).cloned().unwrap_or_else(|| "cases.jsonl".into());
